@@ -500,6 +500,15 @@ def gen_init(rng, impl, dims3=False):
         nc = rng.choice([None, None, 1, 2, 3])
         shape = (n,) if nc is None else (n, nc)
     a = rand_arr(rng, shape, vals)
+    if not dims3 and len(shape) == 2 and shape[1] >= 2 and rng.random() < 0.4:
+        # a "multiple response" grid: mostly one dominant value, most rows hold ONE cell of another value (sparsity > 50 %,
+        # yet after collapsing the dominant value may be rare)
+        base = rng.choice(vals)
+        others = [v for v in vals if v != base][:rng.randint(1, 2)]
+        a = numpy.full(shape, base, dtype=int)
+        for r_ in range(shape[0]):
+            if rng.random() < (0.9 if shape[1] >= 3 else 0.6):
+                a[r_, rng.randrange(shape[1])] = rng.choice(others)
     via = "direct"
     init_forms = []
     if not dims3 and rng.random() < 0.5:
@@ -532,12 +541,59 @@ def rand_cell(rng, a):
     return (rng.randrange(a.shape[0]),) + tuple(rng.randrange(e) for e in a.shape[1:])
 
 
-def gen_op(rng, impl, idx, a, vals, scale=False):
+def gen_op(rng, impl, idx, a, vals, scale=False, reg=None):
     """_gen_op + in 60 % of the steps a seed from which run_step chooses the FORM of every argument (class Forms)."""
+    forced = reg.pop("_force", None) if reg is not None else None
+    if forced is not None and forced in reg and a.ndim <= 2 and reg[forced]["shape"][1:] == list(a.shape[1:]):
+        op = {"op": "append", "other": reg[forced], "reuse": forced}      # the operand of the previous append, once more
+        if rng.random() < 0.6:
+            op["fseed"] = rng.randrange(1 << 30)
+        return op
     op = _gen_op(rng, impl, idx, a, vals, scale)
     if rng.random() < 0.6:
         op["fseed"] = rng.randrange(1 << 30)
+    if reg is not None:
+        add_relations(rng, impl, op, idx, a, reg)
     return op
+
+
+def add_relations(rng, impl, op, idx, a, reg):
+    """RELATIONS between arguments / calls (same content rules as ever, so the model side is unchanged): an operand object
+    re-used by a later step, the receiver as its own operand, the same call made twice with the same argument objects, the
+    source of a copy kept under observation.  `reg`: operands registered for re-use in this history {key: spec}."""
+    o = op["op"]
+    r = rng.random()
+    common = int(idx.common)
+    if o == "append" and a.ndim <= 2:
+        compatible = [k for k, sp in reg.items() if k != "_force" and sp["shape"][1:] == list(a.shape[1:])]
+        if r < 0.10 and rel_ok("self-append"):
+            op["other"], op["reuse"] = spec_of(idx), "self"
+        elif r < 0.30 and compatible and rel_ok("operand-reused"):
+            k = rng.choice(compatible)
+            op["other"], op["reuse"] = reg[k], k
+        elif r < 0.60 and rel_ok("operand-reused"):
+            if rng.random() < 0.6:                 # the operand has the receiver's common value (any order of its entries)
+                op["other"] = direct_spec(rng, densify(op["other"]), common)
+            k = "o%d" % len(reg)
+            reg[k] = op["other"]
+            op["reuse"] = k
+            if rng.random() < 0.5:
+                reg["_force"] = k                  # ... and the next step appends the same object again
+    elif o == "column_stack" and r < 0.2 and a.ndim <= 2 and rel_ok("self-operand:column_stack"):
+        n = rng.choice([1, 1, 2])
+        op["post"] = [spec_of(idx)] * n + list(op["post"])
+        op["post_self"] = n
+    elif o in ("union", "inter", "diff") and r < 0.15 and rel_ok("self-operand:" + o):
+        op["other"] = [[list(k), [int(x) for x in rows.tolist()]] for k, rows in dict.items(idx)]
+        op["other_self"], op["as_index"] = True, False
+    elif o == "update" and r < 0.12 and len(idx) and rel_ok("update-with-own-arrays"):
+        keys = rng.sample(list(dict.keys(idx)), rng.randint(1, min(2, len(idx))))
+        op["entries"] = [[list(k), [int(x) for x in dict.get(idx, k).tolist()]] for k in keys]
+        op["own_arrays"] = True
+    elif o == "copy" and r < 0.4:
+        op["hold"] = True
+    if o in ("shift", "shiftv", "filtered", "reindexed", "collapsed", "sliced", "column_stack", "copy") and rng.random() < 0.15 and rel_ok("twice"):
+        op["twice"] = True
 
 
 def _gen_op(rng, impl, idx, a, vals, scale=False):
@@ -591,13 +647,31 @@ def _gen_op(rng, impl, idx, a, vals, scale=False):
         p = rng.choice([0.3, 0.5, 0.7, 0.9]) if scale else rng.choice([0.0, 0.3, 0.6, 0.6, 1.0])
         return {"op": "filtered", "mask": [rng.random() < p for _ in range(a.shape[0])]}
     if name == "reindexed":
-        if rng.random() < 0.3:
+        listed = sorted({int(k[0]) for k in dict.keys(idx)})
+        q = rng.random()
+        if q < 0.3:
             m = None
+        elif q < 0.5 and len(listed) >= 2:
+            # keys and values overlap: swap, chain, recode onto a listed value the mapping leaves alone
+            xs = rng.sample(listed + [common], min(3, len(listed) + 1))
+            kind = rng.choice(["swap", "chain", "onto-unmapped"])
+            if kind == "swap":
+                m = [[xs[0], xs[1]], [xs[1], xs[0]]]
+            elif kind == "chain" and len(xs) == 3:
+                m = [[xs[0], xs[1]], [xs[1], xs[2]]]
+            else:
+                m = [[xs[0], xs[1]]] + ([[xs[2], xs[1]]] if len(xs) == 3 and rng.random() < 0.5 else [])
         else:
             m = [[k, rng.choice(vals + [9, common])] for k in rng.sample(pool, rng.randint(0, 4))]
         return {"op": "reindexed", "mapping": m, "copy": rng.random() < 0.7, "shift": rng.random() < 0.8}
     if name == "collapsed":
         prec = rng.sample(pool + [-5], rng.randint(1, 4))
+        if rng.random() < 0.5 and a.size:
+            # values present in the data first, then the common value, then anything: rows without a present listed value
+            # fall to the common value
+            present = [int(v) for v in numpy.unique(a).tolist() if int(v) != common]
+            head = rng.sample(present, min(len(present), rng.randint(1, 2))) if present else []
+            prec = head + [common] + [v for v in prec if v not in head and v != common][:rng.randint(0, 2)]
         m = None
         if rng.random() < 0.2:
             m = [[k, rng.choice(vals + [9])] for k in rng.sample(pool, rng.randint(1, 3))]
@@ -737,7 +811,9 @@ def take_orders(a, orders):
 
 REL_TAGS = _collections.Counter()       # relation tags used in this run (evidence)
 # Relations the UNCHANGED library mishandles or rejects (established with IIDX_RELS_ALL=1; notes, RELATION FINDINGS): not generated
-RELS_OFF = set()
+RELS_OFF = {
+    "self-operand:diff",      # idx.difference_update(idx): RuntimeError "dictionary changed size during iteration", receiver half-emptied (RELATION FINDINGS)
+}
 
 
 def rel_ok(kind):
@@ -1073,7 +1149,7 @@ def run_step(impl, idx, a, op, objs=None):
 def after_checks(st, name, operands, args, objs, idx):
     """Relations: index operands must still be well-formed, argument objects unchanged, held indexes untouched."""
     for label, obj, before in operands:
-        if hasattr(obj, "validate") and hasattr(obj, "shape"):
+        if name in ("append", "column_stack") and hasattr(obj, "validate") and hasattr(obj, "shape"):       # (set-update operands are mere containers)
             w = py_wf(obj)
             if w:
                 st.problems.append(("C07", "%s:operand-illformed-after-call" % name, "%s after the call: %s" % (label, w)))
@@ -1161,6 +1237,11 @@ def eq_probe(impl, rng, result, expect, vals, pool=None):
     probe(result, twin, True, "twin-unequal")
     probe(result, cp, True, "copy-unequal")
     probe(result, result, True, "not-reflexive", both=False)
+    sp = spec_of(result)
+    if len(sp["entries"]) > 1:
+        ents = list(sp["entries"])
+        rng.shuffle(ents)
+        probe(result, build(impl, dict(sp, entries=ents)), True, "other-insertion-order-unequal", both=False)
     probe(twin, cp, True, "not-transitive", both=False)          # result == twin and result == copy, so twin == copy
     kinds = ["cell", "common", "shape", "order"]
     rng.shuffle(kinds)
@@ -1235,10 +1316,11 @@ def run_history(impl, rng, max_steps, dims3=False, with_eq=True, own=None, pool=
         h.problems.append((-1, "C15", "from_array:common-not-most-frequent", "common %r for %r" % (idx.common, a.tolist())))
     h.tainted_from = None      # first step after which the real state was already objected to by ANOTHER property's oracle
     h.scale = scale
+    h.objs, h.reg = {}, {}
     for i in range(rng.randint(3, 8) if scale else rng.randint(1, max_steps)):
         try:
-            op = gen_op(rng, impl, idx, a, vals, scale=scale)
-            st = run_step(impl, idx, a, op)
+            op = gen_op(rng, impl, idx, a, vals, scale=scale, reg=h.reg)
+            st = run_step(impl, idx, a, op, h.objs)
         except Exception as e:  # noqa  (the harness's own use of the library raised: only a broken implementation gets here)
             if h.tainted_from is None:
                 import traceback
@@ -1323,9 +1405,10 @@ def replay_history(impl, rng, hj, own=None):
     a = numpy.array(hj["init"]["array"], dtype=int).reshape(hj["init"]["shape"])
     out = []
     py_wf(idx)                 # as run_history does (matters only for defects that keep hidden state on the object)
+    objs = {}
     for i, op in enumerate(hj["ops"]):
         try:
-            st = run_step(impl, idx, a, op)
+            st = run_step(impl, idx, a, op, objs)
         except Exception:  # noqa  (arguments that no longer fit the state, e.g. while shrinking)
             break
         ps = list(st.problems)
@@ -1552,13 +1635,43 @@ def gen_mapping(rng, a, cm):
     return m, kind
 
 
-def from_array_mapped_case(impl, rng, a):
+class Recode(dict):
+    """A recode table that passes unlisted values through (a dict subclass with __missing__; from_array only subscripts)."""
+
+    def __missing__(self, key):
+        return key
+
+
+def implicit_mapping(imp, m):
+    """The mapping object for an 'implicit' description {kind, listed, default}: only the listed keys are stored, the
+    others are resolved by the container itself (defaultdict factory / __missing__)."""
+    listed = {k: m[k] for k in imp["listed"]}
+    if imp["kind"] == "defaultdict-unpopulated":
+        d0 = imp["default"]
+        return _collections.defaultdict(lambda: d0, listed)
+    return Recode(listed)
+
+
+def from_array_mapped_case(impl, rng, a, lib_only=False):
     """from_array(a, [counts], common = None | a present value | an absent value, mapping = ...) on a 1-D/2-D array.
     Judged by py_wf (validate(True) + range/arity/dtype/non-emptiness/sortedness) and by the mapped dense array.
     Returns (literal | None, problem | None, info dict)."""
     present = sorted(set(int(x) for x in a.flat))
-    cm = rng.choice([None, None] + (present[:1] + [rng.choice(present)] if present else []) + [NEVER])
+    cm = None if lib_only else rng.choice([None, None] + (present[:1] + [rng.choice(present)] if present else []) + [NEVER])
     m, kind = gen_mapping(rng, a, cm)
+    imp = None
+    if present and rng.random() < (0.5 if lib_only else 0.25):
+        # the mapping lists only SOME input values; the container resolves the others itself
+        ks = sorted(m)
+        listed = rng.sample(ks, rng.randint(0, max(0, len(ks) - 1)))
+        if rng.random() < 0.5:
+            d0 = rng.choice([0, 1, 2, 3])
+            imp = {"kind": "defaultdict-unpopulated", "listed": listed, "default": d0}
+            m = {k: (m[k] if k in listed else d0) for k in ks}
+        else:
+            imp = {"kind": "dict-subclass-__missing__-passthrough", "listed": listed, "default": None}
+            m = {k: (m[k] if k in listed else k) for k in ks}
+        kind = imp["kind"]
     if cm is None and a.size == 0:
         cm = rng.choice(sorted(m)) if m else None
         if cm is None:
@@ -1578,8 +1691,13 @@ def from_array_mapped_case(impl, rng, a):
     call = "from_array(%r, counts=%r, common=%r, mapping=%r)" % (a.tolist(), counts, cm, m)
     fseed = rng.randrange(1 << 30) if rng.random() < 0.6 else None
     F = Forms(fseed)
-    fa, fm = F.array(a), F.mapping(m, "from_array-mapping")
-    fcounts = None if counts is None else F.mapping(dict(counts), "from_array-counts")
+    fa = F.array(a)
+    fm = implicit_mapping(imp, m) if imp else F.mapping(m, "from_array-mapping")
+    if imp:
+        F.note("from_array-mapping", imp["kind"])
+    # (a pass-through recode returns the count keys themselves, so these stay Python ints: NumPy-scalar coordinates are the
+    #  FORM FINDINGS family, not generated)
+    fcounts = None if counts is None else (dict(counts) if imp else F.mapping(dict(counts), "from_array-counts"))
     info["fseed"] = fseed
     if F.tags:
         call += "  [argument forms: %s]" % ", ".join(F.tags)
@@ -1594,12 +1712,75 @@ def from_array_mapped_case(impl, rng, a):
         w = "dense content differs from the mapped array %r" % (mapped.tolist(),)
     if not w and mc is not None and idx.common != mc:
         w = "common is %r, mapping[common] is %r" % (idx.common, mc)
+    info["wkind"] = "wf-or-dense" if w else None
     if not w and mc is None and not most_frequent(idx.common, mapped):
-        w = "library-chosen common %r is not a most frequent mapped value" % (idx.common,)
+        w = "library-chosen common %r is not a most frequent mapped value (value counts %r)" % (
+            idx.common, dict(zip(*[x.tolist() for x in numpy.unique(mapped, return_counts=True)])))
+        info["wkind"] = "lib-common"
     info["call"] = call
     info["args"] = {"array": a.tolist(), "shape": list(a.shape), "counts": None if counts is None else [[k, v] for k, v in counts.items()], "common": cm,
-                    "mapping": [[k, v] for k, v in m.items()], "fseed": fseed}
+                    "mapping": [[k, v] for k, v in m.items()], "fseed": fseed, "implicit": imp}
     return lit_fcase(mapped, mc, spec), (None if not w else "%s = %r: %s" % (call, spec, w)), info
+
+
+def gen_from_array_reuse(rng):
+    nd = rng.randint(2, 7)
+    vals = rng.sample([0, 1, 2, 3, 4, 5, 6, 8, 9], nd)
+    n = rng.randint(6, 40)
+    shape = (n,) if rng.random() < 0.6 else (n, rng.randint(1, 3))
+    size = n * (shape[1] if len(shape) > 1 else 1)
+    wts = [rng.choice([1, 1, 2, 5]) for _ in vals]
+    a = numpy.array(rng.choices(vals, weights=wts, k=size), dtype=int).reshape(shape)
+    vs, cs = numpy.unique(a, return_counts=True)
+    what = rng.choice(["counts", "counts", "counts", "mapping"])
+    if what == "counts":
+        shared = [[int(v), int(c)] for v, c in zip(vs.tolist(), cs.tolist())]
+        first_common = rng.choice([None, None, int(rng.choice(vs.tolist())), NEVER])
+    else:
+        shared = [[int(v), rng.choice([0, 1, 2, 3])] for v in vs.tolist()]
+        first_common = None
+    return {"array": a.tolist(), "shape": list(shape), "what": what, "shared": shared, "first_common": first_common}
+
+
+def from_array_reuse_case(impl, g):
+    """The SAME counts dict (or mapping) object handed to two consecutive from_array calls: the object must come back
+    unchanged and the SECOND result must be right (well-formed, dense = the array, library-chosen common a most frequent
+    value, == the index built without the shared object).  Returns (literal | None, problems [(prop, sig, text)], tag)."""
+    a = numpy.array(g["array"], dtype=int).reshape(g["shape"])
+    what = g["what"]
+    shared = {k: v for k, v in g["shared"]}
+    before = freeze(shared)
+    problems = []
+    fa = impl.iindex.from_array
+    try:
+        if what == "counts":
+            fa(a, counts=shared, common=g["first_common"])
+            second = fa(a, counts=shared)
+            mapped, call = a, "from_array(a, counts=c, common=%r); from_array(a, counts=c) with the SAME dict c, a = %r" % (g["first_common"], a.tolist())
+        else:
+            fa(a, mapping=shared)
+            second = fa(a, mapping=shared)
+            m0 = {k: v for k, v in g["shared"]}
+            mapped = numpy.vectorize(lambda v: m0[v], otypes=[int])(a)
+            call = "from_array(a, mapping=m) twice with the SAME dict m = %r, a = %r" % (m0, a.tolist())
+    except Exception as e:  # noqa
+        return None, [("C06", "from_array:shared-argument-raised", "%s raised %s: %s" % (what, type(e).__name__, str(e)[:160]))], what
+    if freeze(shared) != before:
+        problems.append(("C06", "from_array:argument-changed", "%s: the shared %s dict was modified: before %r, after %r" % (call, what, before, freeze(shared))))
+    spec = spec_of(second)
+    w = py_wf(second)
+    if w:
+        problems.append(("C07", "from_array:second-call-illformed", "%s: %s" % (call, w)))
+    elif not (densify(spec).shape == mapped.shape and (densify(spec) == mapped).all()):
+        problems.append(("C06", "from_array:second-call-dense-mismatch", "%s: dense content %r" % (call, densify(spec).tolist())))
+    if not most_frequent(second.common, mapped):
+        problems.append(("C15", "from_array:second-call-common-not-most-frequent", "%s: the second call chose common %r; value counts %r" % (
+            call, second.common, dict(zip(*[x.tolist() for x in numpy.unique(mapped, return_counts=True)])))))
+    else:
+        twin = fa(mapped, common=int(second.common))
+        if tri(lambda: second == twin) != 1 or tri(lambda: second != twin) != 0:
+            problems.append(("C15", "from_array:second-call-unequal-to-twin", "%s: result %r != its directly built twin" % (call, spec)))
+    return lit_fcase(mapped, None, spec), problems, "same-%s-object-twice" % what
 
 
 def fresh_array(rng):
@@ -1766,6 +1947,7 @@ def run_check(ctx, prop):
     import os
     n_hist, max_steps = SIZES[ctx.tier]
     FORM_TAGS.clear()
+    REL_TAGS.clear()
     ctx.rule = ("random operation histories (<=%d steps) over well-formed 1-D/2-D indexes (10%% start 3-D, for sliced/slices1d), N<=8, <=3 columns, "
                 "values from a 5-value pool (one pool with negatives) plus a never-occurring value, commons incl. absent ones, built by "
                 "from_array or directly in random dict order; every operation of C06's quantifier with its full argument space; the real "
@@ -1785,7 +1967,11 @@ def run_check(ctx, prop):
                 "generated because the unchanged library rejects them (documented argument types): a NumPy scalar as a single sliced() order, an "
                 "ndarray as a sliced() order, list / int8 masks.  NOT generated because the unchanged library then produces an index its own validator "
                 "rejects (candidate findings, notes FORM FINDINGS): NumPy scalars as common / shift_common(v) / new_common / filtered new_length / "
-                "reindexed / from_array mapping values" % max_steps)
+                "reindexed / from_array mapping values.  RELATIONS (coverage.relation_tags): operands re-used by later steps and validated after "
+                "the call, the receiver as its own operand (append, column_stack, union/intersection_update, update with its own arrays), the same "
+                "call twice with the same argument objects, argument objects compared before/after, the source of a copy kept under observation, one "
+                "counts/mapping dict shared by two from_array calls, swap/chain mappings, == with an equal index in another insertion order; NOT "
+                "generated: idx.difference_update(idx) (raises RuntimeError on the unchanged tree, notes RELATION FINDINGS)" % max_steps)
     ctx.trusted = list(core.STD_TRUSTED) + [
         "harness/iindex_hist.py: abstraction of a real iindex (dict order, int(row ids), common, shape) into a Model.v record literal; "
         "items of set-update operands whose value is None are dropped by the abstraction",
@@ -1831,7 +2017,9 @@ def run_check(ctx, prop):
     map_kinds = collections.Counter()
 
     def add_mapped(arr, owner):
-        lit, why, info = from_array_mapped_case(impl, rng, arr)
+        lit, why, info = from_array_mapped_case(impl, rng, arr, lib_only=(prop == "C15"))
+        if why and prop == "C15" and info.get("wkind") != "lib-common":
+            why = None                       # (well-formedness / dense content of these results are C07's and C06's)
         map_kinds[info["kind"]] += 1
         map_kinds["with counts" if info["counts"] else "without counts"] += 1
         map_kinds["common " + info["common"]] += 1
@@ -1843,7 +2031,7 @@ def run_check(ctx, prop):
             mcases.append(lit)
             mowners.append(owner)
         if why:
-            extra_problems.append(("from_array-mapping:illformed", why, {"call": info.get("call"), "from_array_args": info.get("args"),
+            extra_problems.append(("from_array-mapping:common-not-most-frequent" if info.get("wkind") == "lib-common" else "from_array-mapping:illformed", why, {"call": info.get("call"), "from_array_args": info.get("args"),
                                    "how": "iindex.from_array(array, counts, common, mapping).validate(True) + range/arity/dtype/sortedness; dense == mapped array"}))
 
     for hn in range(n_hist):
@@ -1905,6 +2093,8 @@ def run_check(ctx, prop):
                 if st.raised or st.problems or st.after is None or getattr(st, "tainted", False) or len(fcases) >= n_load_max:
                     continue
                 exp = st.expect if st.expect is not None else densify(st.after)
+                if exp.ndim <= 2 and exp.size and len(mcases) < n_load_max and rng.random() < 0.4:
+                    add_mapped(exp, (hn, i))             # from_array with a mapping, library-chosen common
                 if exp.ndim <= 2 and exp.size:
                     lit, why, cm = from_array_case(impl, rng, exp, h.init["vals"], lib_chosen_only=True)
                     if lit is not None:
@@ -1927,8 +2117,22 @@ def run_check(ctx, prop):
     if prop == "C07":
         for _ in range(1500 if ctx.tier == "quick" else 8000):      # fresh small arrays aimed at interleaving merges
             add_mapped(fresh_array(rng), None)
+    if prop == "C15":
+        for _ in range(600 if ctx.tier == "quick" else 4000):
+            add_mapped(fresh_array(rng), None)
     cov.stop()
     phase("small-scope histories on the implementation")
+    # ---- relations: the same counts / mapping object handed to two from_array calls ----
+    rcases = []
+    for _ in range(300 if ctx.tier == "quick" else 2000):
+        g = gen_from_array_reuse(rng)
+        lit, probs, tag = from_array_reuse_case(impl, g)
+        REL_TAGS[tag] += 1
+        if lit is not None:
+            rcases.append(lit)
+        for (pp, sig, text) in probs:
+            if pp == prop:
+                extra_problems.append((sig, text, {"observed": text[:1500], "from_array_reuse": g, "how": "two consecutive iindex.from_array calls sharing one counts / mapping dict object; the second result is judged"}))
     # ---- scale stream (a): histories over indexes of hundreds of rows ----
     n_scale, n_huge = (40, 3) if ctx.tier == "quick" else (400, 8)
     LIT_CAP, EQ_CAP = 8000, 3000
@@ -1989,6 +2193,8 @@ def run_check(ctx, prop):
             if pp == prop:
                 extra_problems.append((sig, text, {"huge": q, "op": op, "observed": text[:600],
                                                    "how": "a = iindex_hist.huge_array(huge); idx = iindex.from_array(a); then op; judged by NumPy / validate(True) / most-frequent (no Coq literal)"}))
+    ctx.coverage["relation_tags"] = dict(REL_TAGS)
+    ctx.coverage["relations_not_generated"] = sorted(RELS_OFF)
     ctx.coverage["argument_form_tags"] = dict(FORM_TAGS)
     ctx.coverage["argument_forms_not_generated"] = sorted(FORMS_OFF)
     ctx.coverage["scale_histories"] = n_scale
@@ -2002,7 +2208,7 @@ def run_check(ctx, prop):
     ctx.coverage["huge_oracle_only_cases"] = n_huge
     ctx.coverage["huge_oracle_only_judgements"] = huge_judgements
     ctx.coverage["huge_cases"] = huge_shapes
-    ctx.evaluations = len(mcases) + len(cases) + len(scases) + (len(eqcases) if prop == "C15" else 0) + len(lcases) + len(fcases)
+    ctx.evaluations = len(rcases) + len(mcases) + len(cases) + len(scases) + (len(eqcases) if prop == "C15" else 0) + len(lcases) + len(fcases)
     ctx.coverage["histories"] = n_hist
     ctx.coverage["steps"] = len(cases)
     ctx.coverage["operation_distribution"] = dict(opdist)
@@ -2026,6 +2232,10 @@ def run_check(ctx, prop):
     failing += [len(cases) + k for k in res_s.failing]
     errors += res_s.errors
     explain = (explain or "") + (res_s.explain or "")
+    res_r = core.run_cases(prop.lower() + "fromreuse", PRELUDE, rcases, "fcase", "chk07from", "explain_from", shard_size=300)
+    errors += res_r.errors
+    ctx.coverage["from_array_shared_argument_cases"] = len(rcases)
+    ctx.coverage["from_array_shared_argument_disagreements"] = len(res_r.failing)
     n_small = len(cases)
     all_cases, all_owners = cases + scases, owners + sowners
     ctx.coverage["model_disagreements"] = len(failing)
@@ -2036,6 +2246,11 @@ def run_check(ctx, prop):
         ctx.coverage["eq_comparisons_made_on_the_implementation"] = eq_total
         ctx.coverage["eq_model_disagreements"] = len(res2.failing)
         errors += res2.errors
+        res5 = core.run_cases("c15frommap", PRELUDE, mcases, "fcase", "chk07from", "explain_from", shard_size=600)
+        ctx.coverage["from_array_with_mapping_cases"] = len(mcases)
+        ctx.coverage["from_array_with_mapping_distribution"] = dict(map_kinds)
+        ctx.coverage["from_array_with_mapping_disagreements"] = len(res5.failing)
+        errors += res5.errors
         res4 = core.run_cases("c15from", PRELUDE, fcases, "fcase", "chk07from", "explain_from", shard_size=600)
         ctx.coverage["from_array_library_chosen_cases"] = len(fcases)
         ctx.coverage["from_array_disagreements"] = len(res4.failing)
@@ -2115,10 +2330,11 @@ def run_check(ctx, prop):
     if res2 is not None:
         bad_h = {hn for (hn, i, p, sig, text) in py_problems}
         eq_unexplained = [k for k in res2.failing if eqowners[k] not in bad_h]
+    reuse_unexplained = [] if extra_problems else list(res_r.failing)
     if not extra_problems:
         load_unexplained = list(res3.failing) if res3 is not None else []
         from_unexplained = (list(res4.failing) if res4 is not None else []) + ([len(fcases) + k for k in res5.failing] if res5 is not None else [])
-    if not pr["ok"] or not ok_chk or errors or unexplained or eq_unexplained or load_unexplained or from_unexplained:
+    if not pr["ok"] or not ok_chk or errors or unexplained or eq_unexplained or load_unexplained or from_unexplained or reuse_unexplained:
         what = []
         if not pr["ok"]:
             what.append("proof obligation no longer checks: Properties/%s.v or its dependency cone" % prop)
@@ -2132,6 +2348,8 @@ def run_check(ctx, prop):
             what.append("suite c07load: %d INDX round trips whose result wf_b / the comparison with the saved index rejects" % len(load_unexplained))
         if from_unexplained:
             what.append("suite %sfrom: %d from_array results that wf_b / the dense comparison / most-frequent rejects" % (prop.lower(), len(from_unexplained)))
+        if reuse_unexplained:
+            what.append("suite fromreuse: %d second from_array results (shared counts/mapping object) that wf_b / dense / most-frequent rejects: %s" % (len(reuse_unexplained), [rcases[k][:300] for k in reuse_unexplained[:2]]))
         if errors:
             what.append("correspondence shards failed to evaluate: %s" % (errors[0][1][-400:],))
         ctx.report(prop.lower() + ":not-shown", "; ".join(what), {
@@ -2156,6 +2374,11 @@ def replay_check(ctx, prop, path):
         for p in st.problems:
             print("one-step replay: %s %s: %s" % p)
             found.append(p)
+    if r.get("from_array_reuse"):
+        lit, probs, tag = from_array_reuse_case(impl, r["from_array_reuse"])
+        for pr_ in probs:
+            print("shared-argument replay: %s %s: %s" % (pr_[0], pr_[1], pr_[2][:400]))
+            found.append(pr_)
     if r.get("huge"):
         probs, nj = run_huge_case(impl, r["huge"], r.get("op"))
         for pr_ in probs:
@@ -2167,9 +2390,13 @@ def replay_check(ctx, prop, path):
         m = {k: v for k, v in g["mapping"]}
         try:
             F = Forms(g.get("fseed"))
-            fa, fm = F.array(a), F.mapping(m, "from_array-mapping")
-            fcounts = None if g["counts"] is None else F.mapping({k: v for k, v in g["counts"]}, "from_array-counts")
+            fa = F.array(a)
+            fm = implicit_mapping(g["implicit"], m) if g.get("implicit") else F.mapping(m, "from_array-mapping")
+            fcounts = None if g["counts"] is None else ({k: v for k, v in g["counts"]} if g.get("implicit") else F.mapping({k: v for k, v in g["counts"]}, "from_array-counts"))
             idx = impl.iindex.from_array(fa, counts=fcounts, common=F.scalar(g["common"], "from_array-common"), mapping=fm)
+            if g["common"] is None and not most_frequent(idx.common, numpy.vectorize(lambda v: m[v], otypes=[int])(a) if a.size else a):
+                print("from_array replay: library-chosen common %r is not a most frequent mapped value" % (idx.common,))
+                found.append(("C15", "from_array-mapping:common-not-most-frequent", "common %r" % (idx.common,)))
             w = py_wf(idx)
             mapped = numpy.vectorize(lambda v: m[v], otypes=[int])(a) if a.size else a
             if not w and not (densify(spec_of(idx)) == mapped).all():
@@ -2189,6 +2416,6 @@ def replay_check(ctx, prop, path):
     ctx.nontrivial.update(range(max(2, ctx.evaluations)))
     mine = [f for f in found if f[0] == prop]
     if mine:
-        ctx.report(mine[0][1], "replayed failing input still fails: " + mine[0][2][:300], {k: r[k] for k in ("history", "one_step", "failing_step", "from_array_args", "huge", "op") if k in r})
+        ctx.report(mine[0][1], "replayed failing input still fails: " + mine[0][2][:300], {k: r[k] for k in ("history", "one_step", "failing_step", "from_array_args", "huge", "op", "from_array_reuse") if k in r})
     else:
         print("replay: the recorded input no longer fails")
